@@ -98,6 +98,9 @@ func (g *vfGen) nh(name string) *vfOpD {
 	if g.rich && vfBool(name+".hasTag") {
 		d.hasTag, d.tag = true, vfStrK(name+".tag", "ni")
 	}
+	if g.rich && vfBool(name+".hasPop") {
+		d.hasPop, d.pop = true, vfBool(name+".pop")
+	}
 	return d
 }
 
@@ -191,6 +194,9 @@ func (g *vfGen) anyOf(name string, maxMembers, typLo, typHi int, kinds []int) *v
 	case vfKNH:
 		if vfBool(name + ".hasTag") {
 			d.hasTag, d.tag = true, vfStrK(name+".tag", "ni")
+		}
+		if vfBool(name + ".hasPop") {
+			d.hasPop, d.pop = true, vfBool(name+".pop")
 		}
 	}
 	return d
